@@ -771,8 +771,23 @@ func writeExpression(ctx *exprContext, sb *strings.Builder, x parser.Expr) error
 		}
 		sb.WriteString(")")
 	case *parser.IndexExpr:
+		base := x.X
+		for {
+			p, ok := base.(*parser.ParenExpr)
+			if !ok {
+				break
+			}
+			base = p.X
+		}
+		if _, signed := base.(*parser.UnaryExpr); signed {
+			// Indexing binds tighter than a sign: keep (-a)[i] from becoming -(a[i]).
+			sb.WriteString("(")
+		}
 		if err := writeExpressionMaybeParen(ctx, sb, x.X); err != nil {
 			return err
+		}
+		if _, signed := base.(*parser.UnaryExpr); signed {
+			sb.WriteString(")")
 		}
 		sb.WriteString("[")
 		if err := writeExpression(ctx, sb, x.Index); err != nil {
